@@ -117,6 +117,12 @@ func genPattern(rng *rand.Rand) string {
 	var parts []string
 	for i := 0; i < n; i++ {
 		parts = append(parts, segs[rng.Intn(len(segs))])
+		// now and then a run of adjacent "**" of any length
+		if parts[len(parts)-1] == "**" && rng.Intn(3) == 0 {
+			for k := rng.Intn(4); k > 0; k-- {
+				parts = append(parts, "**")
+			}
+		}
 	}
 	return strings.Join(parts, "/")
 }
@@ -133,6 +139,11 @@ var selectCorpus = []struct {
 	{[]string{"a/x.go", "b", "src/a/y.go"}, []string{"**/**"}, []string{"**/**/y.go"}},
 	{[]string{"a/x.go", "b", "src/a/y.go"}, []string{"**/**/**/*.go"}, nil},
 	{[]string{"a/x.go", "a/b/c", "b"}, []string{"a/**/**"}, nil},
+	// runs of three and more adjacent "**"
+	{[]string{"x", "a/x", "a/b/x", "y"}, []string{"**/**/**/x"}, nil},
+	{[]string{"x", "a/x", "a/b/x", "y"}, []string{"**/**/**/**/x"}, nil},
+	{[]string{"a/x.go", "a/b/x.go", "x.go"}, []string{"a/**/**/**/*.go"}, []string{"**/**/**/b/**"}},
+	{[]string{"a/x.go", "b", "src/a/y.go"}, []string{"**/**/**/**/**"}, nil},
 }
 
 func selectCase(col *Collector, rng *rand.Rand) {
